@@ -275,8 +275,10 @@ var _ hash.Hash
 
 //@ func (*RAKPMessage1).DecodeFromBytes
 //@ props C05 C17 C07 C08
+//@ assigns r.*
 //@ ensures [C07.rakp1-short] len(data) < 28 ==> result != nil
 //@ ensures [C07.rakp1-name] len(data) >= 28 && (data[27] > 16 || len(data) < 28+int(data[27])) ==> result != nil
+//@ ensures [C07.rakp1-accept] len(data) >= 28 && data[27] <= 16 && len(data) >= 28+int(data[27]) ==> result == nil
 //@ ensures [C07.rakp1] result == nil ==> r.Tag == data[0] && r.ManagedSystemSessionID == le32(data, 4) && forall(qk, 0, 16, r.RemoteConsoleRandom[qk] == data[8+qk]) &&
 //@    r.MaxPrivilegeLevel == PrivilegeLevel(data[24]%16) && r.PrivilegeLevelLookup == !bit(data[24], 4) &&
 //@    len(r.Username) == int(data[27]) && forall(qk, 0, int(data[27]), r.Username[qk] == data[28+qk])
@@ -354,6 +356,7 @@ var _ hash.Hash
 
 //@ func (*V1Session).DecodeFromBytes
 //@ props C05 C17 C07 C08
+//@ assigns s.*
 //@ ensures [C07.v1-short] len(data) < 10 || (data[0] != 0 && len(data) < 26) ==> result != nil
 //@ ensures [C07.v1-accept] len(data) >= 26 || (len(data) >= 10 && data[0] == 0) ==> result == nil
 //@ ensures [C07.v1-head] result == nil ==> s.AuthType == AuthenticationType(data[0]) && s.Sequence == le32(data, 1) && s.ID == le32(data, 5)
@@ -367,6 +370,7 @@ var _ hash.Hash
 
 //@ func (*V2Session).DecodeFromBytes
 //@ props C05 C17 C07 C04 C08
+//@ assigns s.*, hashstate(s.IntegrityAlgorithm)
 //@ config s.IntegrityAlgorithm, s.ConfidentialityLayerType
 //@ invariant 0 [v2.padscan] padStart <= offset && offset <= len(data) && forall(qk, padStart, offset-1, data[qk] == 0xff) &&
 //@    b == ite(offset == padStart, uint8(0xff), data[offset-1])
@@ -379,6 +383,7 @@ var _ hash.Hash
 //@    aliases(s.Contents, data, 0, 12) && aliases(s.Payload, data, 12, 12+int(s.Length))
 //@ ensures [C07.v2-oem] result == nil && data[1]%64 == 2 ==> uint32(s.Enterprise) == le32(data, 2) && s.PayloadID == le16(data, 6) && s.ID == le32(data, 8) && s.Sequence == le32(data, 12) &&
 //@    s.Length == le16(data, 16) && aliases(s.Contents, data, 0, 18) && aliases(s.Payload, data, 18, 18+int(s.Length))
+//@ ensures [C07.v2-accept] len(data) >= 12 && data[0] == 6 && !bit(data[1], 6) && (data[1]%64 != 2 && 12+int(le16(data, 10)) <= len(data) || data[1]%64 == 2 && len(data) >= 18 && 18+int(le16(data, 16)) <= len(data)) ==> result == nil
 //@ ensures [C04.v2-unauth] result == nil && !bit(data[1], 6) ==> s.Pad == 0 && len(s.Signature) == 0
 //@ at executeHash assert [C04.sig-range] arg[hash.Hash](0) == s.IntegrityAlgorithm && aliases(s.Signature, data, len(data)-len(s.Signature), len(data)) &&
 //@    aliases(arg[[]byte](1), data, 0, len(data)-len(s.Signature))
